@@ -110,6 +110,30 @@ def run(run):
                             'FROM %s AS x, %s AS y SELECT x.getName(), y.getName()' % (ka, kb)]
                 rng.shuffle(fam)
                 seq = fam + rng.sample(fam, min(6, len(fam)))
+                # the same names for other kinds: a join binds two names, later queries bind each of these names to
+                # the other kind and use what only that kind offers (valid ones and ones that cannot be evaluated)
+                own = [k for k in small if len(QG.STRING_ACC.get(k, [])) > 2] if len(small) >= 2 else []
+                if len(own) >= 2:
+                    ka, kb = rng.sample(own, 2)
+                    n1, n2 = rng.choice([("c", "m"), ("a", "b"), ("x", "y")])
+                    only_a = [a for a in QG.STRING_ACC[ka] if a not in QG.STRING_ACC[kb]]
+                    only_b = [a for a in QG.STRING_ACC[kb] if a not in QG.STRING_ACC[ka]]
+                    swaps = []
+                    for acc in only_a:
+                        vs = proj.values.get((ka, acc)) or ["zz"]
+                        swaps += ['FROM %s AS %s WHERE %s.%s() == "%s" SELECT %s.getName()' % (ka, n2, n2, acc, rng.choice(vs), n2),
+                                  'FROM %s AS %s WHERE %s.%s() != "zz" SELECT %s.getName(), %s.%s()' % (ka, n2, n2, acc, n2, n2, acc),
+                                  'FROM %s AS %s WHERE %s.%s() != "zz" SELECT %s.getName()' % (kb, n2, n2, acc, n2)]
+                    for acc in only_b:
+                        vs = proj.values.get((kb, acc)) or ["zz"]
+                        swaps += ['FROM %s AS %s WHERE %s.%s() == "%s" SELECT %s.getName()' % (kb, n1, n1, acc, rng.choice(vs), n1),
+                                  'FROM %s AS %s WHERE %s.%s() != "zz" SELECT %s.getName(), %s.%s()' % (kb, n1, n1, acc, n1, n1, acc),
+                                  'FROM %s AS %s WHERE %s.%s() != "zz" SELECT %s.getName()' % (ka, n1, n1, acc, n1)]
+                    joins = ['FROM %s AS %s, %s AS %s SELECT %s.getName(), %s.getName()' % (ka, n1, kb, n2, n1, n2),
+                             'FROM %s AS %s, %s AS %s WHERE %s.getName() == %s.getName() SELECT %s.getName()' % (kb, n2, ka, n1, n1, n2, n1)]
+                    rng.shuffle(swaps)
+                    seq = seq + swaps[:3] + [rng.choice(joins)] + swaps + [rng.choice(joins)] + rng.sample(swaps, min(4, len(swaps)))
+                    stats["alias_swap_sequences"] += 1
             if s == 0:
                 # corpus first: every accessor-with-side-effect candidate followed by a full description of the same kind
                 seq = list(DOCQ)
